@@ -54,7 +54,8 @@ pub struct C15;
 const ALPHA: &[&str] = &["a", "b", "c", "d"];
 const ALPHA_MB: &[&str] = &["a", "b", "c", "d", "ä", "中"];
 // pool clusters only: concatenations re-segment into themselves
-const ALPHA_G: &[&str] = &["a", "b", "c", "d", "ä", "e\u{301}", "👍🏽", "🇩🇪"];
+// "\r\n" is one extended grapheme cluster made of two ASCII bytes
+const ALPHA_G: &[&str] = &["a", "b", "c", "d", "ä", "e\u{301}", "👍🏽", "🇩🇪", "\r\n"];
 
 // grapheme mode, totality only: units that fuse with their neighbours (regional indicators, jamo,
 // a lone combining mark, a cluster ending in ZWJ)
@@ -416,6 +417,11 @@ impl Prop for C15 {
             let mut lines = String::new();
             let mut seen = HashSet::new();
             for ((p, cur, n), e) in &c.tables.replace {
+                // the file is line- and space-separated: characters containing whitespace (the
+                // CRLF cluster of the alphabet) cannot be written into it
+                if [p, cur, n].iter().any(|x| x.chars().any(char::is_whitespace)) {
+                    continue;
+                }
                 if seen.insert((p.clone(), cur.clone(), n.clone())) {
                     lines.push_str(&format!("{p} {cur} {n}\t{}\n", e[0].1 as usize * 100));
                 }
